@@ -1282,3 +1282,76 @@ Proof.
   cbn [SInv] in Hinv. destruct Hinv as (_ & Hall & _). destruct (Hall m Hm) as (Lm & _ & (_ & I1 & _)).
   exists (flat_map vrows (m_frags m)). apply view_frags_wf. exact I1.
 Qed.
+
+(* ================================================================ the classes and the taint *)
+Lemma filter_nil_existsb {A} (p : A -> bool) l : existsb p l = false -> filter p l = [].
+Proof.
+  induction l as [|x l IH]; cbn [existsb filter]; intro H; [reflexivity|].
+  apply orb_false_iff in H as [H1 H2]. rewrite H1. apply IH; exact H2.
+Qed.
+
+Lemma no_class_no_taint st : forall ops h L lh T h' L' lh' T',
+  spec_from st (h, L, lh, T) ops = Ok (h', L', lh', T') ->
+  known_nonaddress_from st h ops = false -> known_inserted_from st h ops = false -> T' = T.
+Proof.
+  induction ops as [|o tl IH]; intros h L lh T h' L' lh' T' H K1 K2; cbn [spec_from known_nonaddress_from known_inserted_from] in *.
+  - inversion H; subst; reflexivity.
+  - apply bind_ok in H as (m' & Hs & H). rewrite Hs in K1, K2.
+    apply orb_false_iff in K1 as [K1a K1b]. apply orb_false_iff in K2 as [K2a K2b].
+    rewrite (IH _ _ _ _ _ _ _ _ H K1b K2b).
+    assert (E : taint_step match h with l :: _ => Some l | [] => None end (handed_out h m') o = []).
+    { destruct o; try reflexivity. destruct h as [|cur tl0]; [reflexivity|]. cbn [taint_step].
+      rewrite (filter_nil_existsb _ _ K1a). apply negb_false_iff in K2a. apply N.eqb_eq in K2a.
+      unfold handed_out. rewrite K2a, N.sub_diag. reflexivity. }
+    rewrite E. apply app_nil_r.
+Qed.
+
+Lemma outside_classes_untainted ops h L lh T :
+  spec_run true ops = Ok (h, L, lh, T) ->
+  Known_C17_update_created_at_nonaddress_rowid true ops = false ->
+  Known_C17_update_inserted_row_created_at true ops = false -> T = [].
+Proof. intros H K1 K2. eapply no_class_no_taint; eauto. Qed.
+
+(* outside both classes: both version columns of every visible row are the ledger's *)
+Lemma versions_correct_outside ops h L lh T :
+  spec_run true ops = Ok (h, L, lh, T) -> run_ok17 true [] ops = true -> frag_ids_unique h = true ->
+  Known_C17_update_created_at_nonaddress_rowid true ops = false ->
+  Known_C17_update_inserted_row_created_at true ops = false ->
+  forall latest tl rows, h = latest :: tl -> view latest = Ok rows ->
+  forall r c u, In (r, (c, u)) rows -> lget L r = Some (c, u).
+Proof.
+  intros Hr Hok Hu K1 K2 latest tl rows Eh Hv r c u Hin.
+  pose proof (outside_classes_untainted _ _ _ _ _ Hr K1 K2) as ET. subst T.
+  destruct (versions_correct _ _ _ _ _ Hr Hok Hu _ _ _ Eh Hv _ _ _ Hin) as (c0 & G1 & G2).
+  rewrite (G2 (fun C => C)). exact G1.
+Qed.
+
+(* DatasetDelta: exactly the rows the ledger says were inserted, or updated but not inserted, in (b, e] *)
+Definition ledger_inserted (L : ledger) (b e : N) (x : vrow) : bool :=
+  match lget L (fst x) with Some v => (b <? fst v) && (fst v <=? e) | None => false end.
+Definition ledger_updated (L : ledger) (b e : N) (x : vrow) : bool :=
+  match lget L (fst x) with Some v => (fst v <=? b) && (b <? snd v) && (snd v <=? e) | None => false end.
+
+Lemma delta_exact ops h L lh T :
+  spec_run true ops = Ok (h, L, lh, T) -> run_ok17 true [] ops = true -> frag_ids_unique h = true ->
+  Known_C17_update_created_at_nonaddress_rowid true ops = false ->
+  Known_C17_update_inserted_row_created_at true ops = false ->
+  forall latest tl rows b e, h = latest :: tl -> view latest = Ok rows ->
+    delta_inserted latest b e = Ok (filter (ledger_inserted L b e) rows) /\
+    delta_updated latest b e = Ok (filter (ledger_updated L b e) rows).
+Proof.
+  intros Hr Hok Hu K1 K2 latest tl rows b e Eh Hv.
+  pose proof (versions_correct_outside _ _ _ _ _ Hr Hok Hu K1 K2 _ _ _ Eh Hv) as Hall.
+  unfold delta_inserted, delta_updated. rewrite Hv. cbn [bind]. split; f_equal; apply filter_ext_in; intros [r [c u]] Hin;
+    unfold is_inserted, is_updated, ledger_inserted, ledger_updated; cbn [fst snd]; rewrite (Hall _ _ _ Hin); reflexivity.
+Qed.
+
+(* with tainted rows around, the last_updated_at half of the feed is still exact *)
+Lemma delta_updated_sound ops h L lh T :
+  spec_run true ops = Ok (h, L, lh, T) -> run_ok17 true [] ops = true -> frag_ids_unique h = true ->
+  forall latest tl rows, h = latest :: tl -> view latest = Ok rows ->
+  forall r c u, In (r, (c, u)) rows -> exists c0, lget L r = Some (c0, u).
+Proof.
+  intros Hr Hok Hu latest tl rows Eh Hv r c u Hin.
+  destruct (versions_correct _ _ _ _ _ Hr Hok Hu _ _ _ Eh Hv _ _ _ Hin) as (c0 & G1 & _). exists c0; exact G1.
+Qed.
